@@ -614,7 +614,7 @@ def native_replay(u, inputs, outdir, tag):
         if rc != 0:
             return None, "replay build failed: " + se[-1500:]
         objs.append(o)
-    rc, so, se, dt = sh(["g++"] + objs + ["-o", exe, "-lm"], timeout=300)
+    rc, so, se, dt = sh(["g++"] + objs + ["-o", exe, "-lm"] + rp.get("libs", []), timeout=300)
     for o in objs:
         try:
             os.remove(o)
